@@ -35,13 +35,20 @@ run_case() {
 }
 export -f run_case; export VERIF REPO
 "$VERIF/check" build
+sel=()
 for c in "${cases[@]}"; do
   skip=0
   if [ $# -gt 0 ]; then skip=1; for f in "$@"; do [[ "$c" == *"$f"* ]] && skip=0; done; fi
   [ $skip -eq 1 ] && continue
-  n=$((n+1))
-  run_case "$c" || fail=$((fail+1))
+  sel+=("$c")
 done
+n=${#sel[@]}
+# SELFTEST_JOBS cases at a time (each case runs its own solver processes; default 3)
+res=$(mktemp)
+printf '%s\n' "${sel[@]}" | xargs -P "${SELFTEST_JOBS:-3}" -I{} bash -c 'run_case "$1"' _ {} | tee "$res"
+fail=$(grep -c -v '^SELFTEST-OK' "$res" | head -1)
+fail=$(grep -c '^SELFTEST-MISS\|^SELFTEST-ERROR' "$res")
+rm -f "$res"
 git -C "$REPO" worktree prune
 echo "selftest: $n cases, $fail missed"
-[ $fail -eq 0 ]
+[ "$fail" -eq 0 ]
